@@ -36,6 +36,9 @@ CLAIMED = {
  "C06": ("lattice", "deviation-bounded exhaustive enumeration (<=4 axes off default quick, full product thorough) of request x session x SP shape x IdP key/signer x signature method x intermediates x clock x tolerance, with an independent decoder and fresh signature verification as oracle",
          "Each point drives the real ServeSSO / ServeIDPInitiated (after a decoy-session response on the same IdP object); the emitted page is decoded independently (HTML tokenizer, base64, etree, own decryption) and every scoping field, the identity content and both enveloped signatures (method, key, certificate) are checked against the registry, the request, the session and the clock.",
          "DESIGN.md §3 C06", TRUST),
+ "C07": ("lattice", "bounded-exhaustive enumeration of session strings over an XML token alphabet (<=2 tokens quick, <=3 thorough) in 12 positions, position pairs, a length ladder and configuration axes, through the complete real IdP->SP round trip with a differential oracle",
+         "SP and IdP are wired only through their published metadata (serialised and re-parsed); for every enumerated session the SP emits a request, the IdP validates it and answers, the SP parses the POSTed form, and the parsed NameID, ordered attribute names/values and session index must equal those of the assertion the IdP built, which must in turn carry every session string.",
+         "DESIGN.md §3 C07", TRUST),
  "C09": ("lattice", "bounded-exhaustive enumeration of message shapes (all subsets of optional parts with a valid signature re-applied, framings, prefixes, single tree edits, size ladders) and exhaustive single-fault enumeration of the artifact resolver, with a totality oracle",
          "For every consuming API: all subsets (size <=3 quick, <=4 thorough; all subsets for the smaller messages) of optional elements/attributes are removed from a schema-valid message, the harness IdP re-signs (and optionally encrypts) it, and the call must return a result xor an error of the documented type - never panic; plus base64/deflate framings, inflate ladders around the 10 MB limit with an allocation bound, every prefix and every single-node edit of fixtures, degenerate documents, depth/width ladders, and every single resolver fault including a read error after k bytes for every k.",
          "DESIGN.md §3 C09", "enumerated families only (no coverage-guided byte fuzzing); a hang shows up as a worker that never reports, attributed to the case it was running"),
